@@ -562,7 +562,7 @@ def r_queue_cap(e, R):
             for d in defs:
                 expand(fn, d, depth + 1)
             return
-        sources.append((fn, x))
+        sources.append((fn, inline_locals(e, fn, x)))
     expand(f, arg)
     if not sources:
         raise AnalysisError("call queue capacity: no source expression found")
@@ -580,7 +580,7 @@ def r_queue_cap(e, R):
         def classify(n, fn=fn):
             if isinstance(n, ast.Attribute) and n.attr == mw and isinstance(n.value, ast.Name) and n.value.id == fn.params[0]:
                 return "M"
-            if isinstance(n, ast.Call) and e.callees_of(n) & cpu_quals:
+            if isinstance(n, ast.Call) and (e.callees_of(n) & cpu_quals or any(v[0] == "func" and v[1] in cpu_quals for v in e.pt.ev(fn, n.func))):
                 return "CPU"
             if isinstance(n, ast.Name) and n.id not in fn.locals:
                 v = _module_int(e, fn.module, n.id)
